@@ -43,7 +43,9 @@ GARBAGE = [b'Index: foo.c', b'==================================================
 # garbage that stays garbage inside a hunk body too (first byte not one of + - space tab newline)
 BODY_SAFE = [g for g in GARBAGE if g[:1] not in (b'+', b'-', b' ', b'\t', b'')]
 BADHH = [b'@@ -x,1 +1 @@', b'@@ -1,2', b'@@ -1 +99999999999999999999999 @@', b'@@ -1,2 +1,2', b'@@ -1,2 +1,2 x', b'@@ -,1 +1 @@', b'@@ -1 1 @@',
-         b'@@ -18446744073709551616,1 +1 @@']
+         b'@@ -18446744073709551616,1 +1 @@',
+         # one side fits a machine word but not a line number (> isize::MAX), the other is ordinary
+         b'@@ -18446744073709551615,1 +1,1 @@', b'@@ -1,1 +9223372036854775808,1 @@', b'@@ -9223372036854775808,1 +1 @@', b'@@ -1 +18446744073709551615 @@']
 
 
 def tok_bytes(t, variant, tv=0):
